@@ -546,10 +546,28 @@ func r103(c *fw.Ctx) {
 	// (c) endFuncBody calls checkLabels unconditionally (first-level statement)
 	if efd, ep := needDecl(c, rule, "(*CodeBuilder).endFuncBody"); efd != nil {
 		found := false
-		for _, st := range efd.Body.List {
+		isCheck := func(st ast.Stmt) bool {
 			if es, ok := st.(*ast.ExprStmt); ok {
 				if call, ok := es.X.(*ast.CallExpr); ok && isFunc(callee(ep.TypesInfo, call), fw.Mod, "funcBodyCtx.checkLabels") {
-					found = true
+					return true
+				}
+			}
+			return false
+		}
+		for _, st := range efd.Body.List {
+			if isCheck(st) {
+				found = true
+			}
+			// a guard `labels != nil` / `len(labels) > 0` skips the call only when there is nothing to check
+			if is, ok := st.(*ast.IfStmt); ok && is.Init == nil && is.Else == nil {
+				cond := exprString(is.Cond)
+				onLabels := strings.Contains(cond, ".labels")
+				if be, ok := unparen(is.Cond).(*ast.BinaryExpr); ok && onLabels && (be.Op == token.NEQ || be.Op == token.GTR) {
+					for _, inner := range is.Body.List {
+						if isCheck(inner) {
+							found = true
+						}
+					}
 				}
 			}
 		}
